@@ -505,11 +505,26 @@ impl Env {
             if m.label.starts_with("subst-hash") != with_subst {
                 continue;
             }
+            // now and then the peer first ANNOUNCES the substituted block as its last state (a valid header that nobody
+            // has proved: the "already proved" shortcut must look at the proved header, not at the announced one), and
+            // announces its real tip again afterwards
+            let mut announced = false;
+            if with_subst && (m.label.ends_with("=fork") || m.label.ends_with("=canon")) && rand::Rng::gen_bool(rng, 0.5) {
+                let x = m.hs.iter().zip(m.fs.iter()).find(|(h, f)| h != f).map(|(h, _)| *h).unwrap_or(0);
+                let proved_hash = sim.client().peers.get_state(&p).and_then(|st| st.get_prove_state().map(|ps| ps.get_last_header().header().hash()));
+                if x >= 1 && proved_hash.is_some() && proved_hash != Some(sim.chain.blocks[x as usize - 1].header.hash()) {
+                    self.send_last_state_of(sim, i, x as usize - 1);
+                    announced = true;
+                }
+            }
             let args = json!({"p": pname(p), "start": m.start, "n": m.fs.len(), "tip": server.tip + 1,
                 "kind": format!("mut:{}", m.label), "fs": m.fs, "hs": m.hs});
             let bytes = m.msg.as_bytes();
             sim.step("Filters", args, |c| c.deliver(Proto::Filter, p, bytes));
             n += 1;
+            if announced && self.peers[i].connected {
+                self.send_last_state(sim, i);
+            }
         }
         n
     }
